@@ -955,3 +955,26 @@ Section NestedDetect.
     intros E. apply Hd. symmetry. exact E.
   Qed.
 End NestedDetect.
+
+(* ---- rename detection has nothing to do when no recorded path is absent: -dr then changes nothing ---- *)
+Section DrNothingMissing.
+  Variable Hb : fmt -> bytes -> bytes.
+  Variable matches : list text -> text -> bool.
+  Variable C : Type.
+  Variable cdig : C -> text.
+  Variable ser : gen -> C.
+
+  Lemma detect_renames_nil hs (t : node C) s newp : detect_renames Hb C hs t s newp [] = mkDR s [] false.
+  Proof. unfold detect_renames. induction newp as [|np l IH]; [reflexivity|]. cbn [fold_left]. exact IH. Qed.
+
+  Theorem create_dr_nothing_missing (t : node C) hs req no_dh ip ifl :
+    load C cdig t = inl hs ->
+    let spec := set_patterns (latest_patterns (lh_gens (root_hist hs))) ip (pattern_file_lines ifl) in
+    diff_paths (expected_paths hs) (visited (events matches C spec [] t)) = [] ->
+    create_folder Hb matches C cdig ser t req no_dh true ip ifl = create_folder Hb matches C cdig ser t req no_dh false ip ifl.
+  Proof.
+    intros Hl spec Hnf. unfold create_folder. rewrite Hl. fold spec.
+    match goal with |- context [fold_left ?f ?l ?i] => destruct (fold_left f l i) as [sess0 fails] end. rewrite Hnf. change (sorted_paths []) with (@nil path).
+    rewrite detect_renames_nil. reflexivity.
+  Qed.
+End DrNothingMissing.
